@@ -134,6 +134,79 @@ theorem runReduce_inv {α} {r : Reduce} {x y : Tensor α} {ys : Shape} {f : (Nat
       simp only [pure, Except.pure, Except.ok.injEq] at h
       exact ⟨Reduce.inBounds_iff.mp (by simpa using h1), by simpa using h2, h.symm⟩
 
+/-! ### several loop nests into one destination (concat, batch_concat) -/
+
+theorem runSetMany_inv_cons {α} {ys : Shape} {m : Moves} {x : Tensor α} {rest : List (Moves × Tensor α)}
+    {acc d : Nat → α} (h : runSetMany ys ((m, x) :: rest) acc = .ok d) :
+    m.InBounds x.shape.size ys.size ∧ runSetMany ys rest (scatterSet m.didx m.sidx x.data m.count acc) = .ok d := by
+  simp only [runSetMany] at h
+  split at h
+  · cases h
+  · rename_i h1
+    exact ⟨Moves.inBounds_iff.mp (by simpa using h1), h⟩
+
+theorem runSetMany_bounds {α} {ys : Shape} (l : List (Moves × Tensor α)) {acc d : Nat → α}
+    (h : runSetMany ys l acc = .ok d) : ∀ e ∈ l, e.1.InBounds e.2.shape.size ys.size := by
+  induction l generalizing acc with
+  | nil => intro e he; cases he
+  | cons hd tl ih =>
+    obtain ⟨m, x⟩ := hd
+    have ⟨h1, h2⟩ := runSetMany_inv_cons h
+    intro e he
+    rcases List.mem_cons.mp he with rfl | he'
+    · exact h1
+    · exact ih h2 e he'
+
+theorem runSetMany_ok {α} {ys : Shape} (l : List (Moves × Tensor α)) (acc : Nat → α)
+    (hb : ∀ e ∈ l, e.1.InBounds e.2.shape.size ys.size) : ∃ d, runSetMany ys l acc = .ok d := by
+  induction l generalizing acc with
+  | nil => exact ⟨acc, rfl⟩
+  | cons hd tl ih =>
+    obtain ⟨m, x⟩ := hd
+    simp only [runSetMany]
+    rw [Moves.inBounds_iff.mpr (hb (m, x) (List.mem_cons_self))]
+    simp only [Bool.not_true, Bool.false_eq_true, if_false]
+    exact ih _ (fun e he => hb e (List.mem_cons_of_mem _ he))
+
+/-- an index no loop nest writes keeps its old value -/
+theorem runSetMany_untouched {α} {ys : Shape} (l : List (Moves × Tensor α)) {acc d : Nat → α}
+    (h : runSetMany ys l acc = .ok d) (o : Nat) (hno : ∀ e ∈ l, ∀ t, t < e.1.count → e.1.didx t ≠ o) : d o = acc o := by
+  induction l generalizing acc with
+  | nil => simp only [runSetMany, pure, Except.pure, Except.ok.injEq] at h; rw [← h]
+  | cons hd tl ih =>
+    obtain ⟨m, x⟩ := hd
+    have ⟨_, h2⟩ := runSetMany_inv_cons h
+    rw [ih h2 (fun e he => hno e (List.mem_cons_of_mem _ he))]
+    exact scatterSet_untouched _ _ _ _ _ _ (fun t ht => hno (m, x) List.mem_cons_self t ht)
+
+/-- the value an index gets from step `t` of the `p`-th loop nest, when nothing
+later writes it -/
+theorem runSetMany_at {α} {ys : Shape} (l : List (Moves × Tensor α)) {acc d : Nat → α}
+    (h : runSetMany ys l acc = .ok d) (p : Nat) (hp : p < l.length) (t : Nat) (ht : t < l[p].1.count)
+    (hin : ∀ t', t < t' → t' < l[p].1.count → l[p].1.didx t' ≠ l[p].1.didx t)
+    (hlater : ∀ p' (hp' : p' < l.length), p < p' → ∀ t', t' < l[p'].1.count → l[p'].1.didx t' ≠ l[p].1.didx t) :
+    d (l[p].1.didx t) = l[p].2.data (l[p].1.sidx t) := by
+  induction l generalizing acc p with
+  | nil => simp at hp
+  | cons hd tl ih =>
+    obtain ⟨m, x⟩ := hd
+    have ⟨_, h2⟩ := runSetMany_inv_cons h
+    cases p with
+    | zero =>
+      simp only [List.getElem_cons_zero] at ht hin hlater ⊢
+      rw [runSetMany_untouched tl h2]
+      · exact scatterSet_at _ _ _ _ _ _ ht hin
+      · intro e he t' ht'
+        obtain ⟨q, hq, rfl⟩ := List.getElem_of_mem he
+        have := hlater (q + 1) (by simp; omega) (by omega) t' (by simpa using ht')
+        simpa using this
+    | succ p =>
+      simp only [List.getElem_cons_succ] at ht hin hlater ⊢
+      refine ih h2 p (by simpa using hp) ht hin ?_
+      intro p' hp' hlt t' ht'
+      have := hlater (p' + 1) (by simp; omega) (by omega) t' (by simpa using ht')
+      simpa using this
+
 theorem checkDevice_ok {α} {x : Tensor α} (h : x.loc = .here) : checkDevice x = .ok () := by
   unfold checkDevice; rw [if_pos h]; rfl
 
